@@ -122,6 +122,8 @@ def run(ctx):
                 continue
             if rng.random() < 0.35:
                 for r in flatten(o[1])[:2]:
+                    if (getattr(r, 'is_expression', False) or getattr(r, 'is_predicate', False)) and S.power_bomb(r):
+                        continue  # e.g. the join with a predicate that holds an astronomically large power
                     for name2, thunk2 in rewrites_of(r, rng, aliases, other_pred):
                         if rng.random() < 0.5:
                             continue
@@ -161,7 +163,8 @@ def run(ctx):
             ctx.skip('rejected:' + type(o[1]).__name__)
             continue
         h = o[1]
-        if getattr(h, 'is_predicate', False) and not getattr(h, 'is_vacuous', False) and rng.random() < 0.3:
+        if getattr(h, 'is_predicate', False) and not getattr(h, 'is_vacuous', False) and rng.random() < 0.3 \
+                and not S.power_bomb(h):
             other_pred = h
         if n % 300 == 0:
             ctx.sample({'input': text[:200], 'level': level, 'rewrites_applied': [x[0] for x in rewrites_of(h, rng, aliases, other_pred)]})
